@@ -1,5 +1,73 @@
-/- C17 — placeholder until the theorems are in; not claimed in MANIFEST.json while this comment stands. -/
+/-
+C17 — Binary results are valid definite-length blocks in the requested byte order.
+Property theorems only; helper lemmas in ScpiVerif/Lemmas/Blocks.lean.
+-/
 import ScpiVerif.Model.Result
 import ScpiVerif.Spec.Message
+import ScpiVerif.Lemmas.Blocks
+
 namespace ScpiVerif.Props.C17
+open ScpiVerif ScpiVerif.Lexer ScpiVerif.Result ScpiVerif.Spec.Message
+
+def emitted (o o' : Out) : Bytes := o'.written.drop o.written.length
+
+/-- the item separator the output state calls for -/
+def sepOf (o : Out) : Bytes := if o.outputCount > 0 then [44] else if o.outputCount < 0 then [59] else []
+
+/-- for every length below 10^9: '#', one digit giving the number of length digits (1..9), the decimal
+byte count; the 12-byte scratch buffer is large enough; the announced length is remembered -/
+theorem header_spec (o : Out) (n : Nat) (hn : n < 10^9) :
+    let o' := resultBlockHeader o n
+    emitted o o' = sepOf o ++ [35, UInt8.ofNat (48 + (decimal n).length)] ++ decimal n ∧
+    1 ≤ (decimal n).length ∧ (decimal n).length ≤ 9 ∧ 2 + (decimal n).length + 1 ≤ Gen.bufBlockHeader ∧
+    o'.arbRemaining = n ∧ o'.outputCount = (if o.outputCount < 0 then 0 else o.outputCount) :=
+  Lemmas.Blocks.header_spec o n hn
+
+/-- a whole block: header for the exact length, then the data unchanged, counted as one item -/
+theorem block_spec (o : Out) (d : Bytes) (hd : d.length < 10^9) :
+    let o' := resultBlock o d
+    emitted o o' = sepOf o ++ encodeBlock d ∧ o'.arbRemaining = 0 ∧
+    o'.outputCount = (if o.outputCount < 0 then 0 else o.outputCount) + 1 ∧ o'.pushed = o.pushed :=
+  Lemmas.Blocks.block_spec o d hd
+
+/-- streamed data: for every split of the data into chunks that sum to the announced length, the bytes
+are the data unchanged and the block counts as one result item, at completion and not before -/
+theorem block_stream (o : Out) (chunks : List Bytes) (n : Nat) (hn : n < 10^9) (hsum : chunks.flatten.length = n)
+    (hne : ∀ c ∈ chunks, c ≠ []) :
+    let o1 := resultBlockHeader o n
+    let o' := chunks.foldl resultBlockData o1
+    emitted o o' = sepOf o ++ encodeBlock chunks.flatten ∧ o'.arbRemaining = 0 ∧ o'.pushed = o.pushed ∧
+    (n > 0 → o'.outputCount = o1.outputCount + 1) ∧
+    (∀ k, k < chunks.length → (chunks.take k).flatten.length < n → ((chunks.take k).foldl resultBlockData o1).outputCount = o1.outputCount) :=
+  Lemmas.Blocks.block_stream o chunks n hn hsum hne
+
+/-- data beyond the announced length is refused: nothing is written, -310 is raised, the remaining
+length and the item count are unchanged -/
+theorem over_length_refused (o : Out) (d : Bytes) (h : o.arbRemaining < d.length) :
+    let o' := resultBlockData o d
+    o'.written = o.written ∧ o'.pushed = o.pushed ++ [-310] ∧ o'.arbRemaining = o.arbRemaining ∧ o'.outputCount = o.outputCount :=
+  Lemmas.Blocks.over_length_refused o d h
+
+/-- big-endian / little-endian encoding of an element given in host order -/
+def wire (hostLittle : Bool) (wantLittle : Bool) (e : Bytes) : Bytes := if hostLittle == wantLittle then e else e.reverse
+
+/-- binary arrays, for BOTH host byte orders: `elems` are the elements as stored in host memory,
+`sameOrder` says whether the requested format is the host's; the block holds every element in the
+requested order, and counts as one item (also when the array is empty) -/
+theorem array_binary (o : Out) (elems : List Bytes) (sz : Nat) (hsz : sz = 1 ∨ sz = 2 ∨ sz = 4 ∨ sz = 8)
+    (hel : ∀ e ∈ elems, e.length = sz) (hlen : elems.length * sz < 10^9) (hostLittle wantLittle : Bool) :
+    let o' := resultArrayBinary o elems sz (hostLittle == wantLittle)
+    emitted o o' = sepOf o ++ encodeBlock (elems.flatMap (wire hostLittle wantLittle)) ∧
+    o'.outputCount = (if o.outputCount < 0 then 0 else o.outputCount) + 1 ∧ o'.arbRemaining = 0 ∧ o'.pushed = o.pushed :=
+  Lemmas.Blocks.array_binary o elems sz hsz hel hlen hostLittle wantLittle
+
+/-- an unsupported element size raises -310 and writes nothing -/
+theorem array_bad_size (o : Out) (elems : List Bytes) (sz : Nat) (same : Bool) (h : ¬(sz = 1 ∨ sz = 2 ∨ sz = 4 ∨ sz = 8)) :
+    (resultArrayBinary o elems sz same).written = o.written ∧ (resultArrayBinary o elems sz same).pushed = o.pushed ++ [-310] :=
+  Lemmas.Blocks.array_bad_size o elems sz same h
+
+-- non-vacuity: two 16-bit elements 0x0102, 0x0304 on a little-endian host, big-endian requested
+example : emitted {} (resultArrayBinary {} [[2, 1], [4, 3]] 2 false) = [35, 49, 52, 1, 2, 3, 4] := by decide +kernel
+example : emitted {} (resultArrayBinary {} [] 4 false) = [35, 49, 48] ∧ (resultArrayBinary {} [] 4 false).outputCount = 1 := by decide +kernel
+
 end ScpiVerif.Props.C17
